@@ -91,6 +91,14 @@ def finish(res, out, name, scratch):
     shutil.rmtree(scratch, ignore_errors=True)
     d = f"/verif/seeded/{name}"
     os.makedirs(d, exist_ok=True)
+    if res.get("patch_applies") is False and os.path.exists(os.path.join(d, "meta.json")):
+        # the code the change was planted in has been repaired or rewritten since: the earlier record
+        # (made against the HEAD named in it) is kept
+        old = json.load(open(os.path.join(d, "meta.json")))
+        old["later_heads_patch_no_longer_applies"] = sorted(set(old.get("later_heads_patch_no_longer_applies", []) + [res["head"]]))
+        json.dump(old, open(os.path.join(d, "meta.json"), "w"), indent=1)
+        print(name, "PATCH-NO-LONGER-APPLIES (earlier record kept: detected_by=%s at %s)" % (old.get("detected_by"), old.get("head")))
+        return
     if os.path.realpath(out) != os.path.realpath(d):
         shutil.copy(os.path.join(out, "patch.diff"), d)
         shutil.copy(os.path.join(out, "demo_test.go"), d)
